@@ -47,6 +47,10 @@ def cases(tier, seed):
     for q in qn:
         fam.append(["L", "Q." + q])
         fam.append(["L", "Q." + q + "@cw"])
+    # generic affine images (nothing axis-aligned, nothing centred at the origin) and split shapes
+    for q in (al.Q_ORDER if tier == "thorough" else ["c8", "blob", "scub", "rsq"]):
+        fam.append(["G", "Q." + q])
+    fam += [["SP", ["L", "P.L#int"]], ["SP", ["L", "Q.c8@cw"]], ["SP", ["PC", "hollow", "float"]]]
     fam += [["CQ", "ringc"], ["CQ", "twoc"], ["CQ", "xringc"], ["E"], ["W"]]
     specs = []
     for n in range(0, len(fam), 6):
@@ -56,7 +60,7 @@ def cases(tier, seed):
 
 
 def name(e):
-    return "CQ." + e[1] if e[0] == "CQ" else al.expr_id(e)
+    return al.expr_id(e)
 
 
 def build(e):
